@@ -291,6 +291,16 @@ def bracketOk (c : Str) : Bool :=
   let zone := c.dropWhile (· != 37)
   isIPv6 addr && (zone.isEmpty || isZone zone)
 
+/-- alternative 3 of `_HOST_PORT_RE`: `[` … first `]`, then the port part -/
+def hostPortBracket : Str → Option (Str × Option Str)
+  | 91 :: t =>
+    let c := t.takeWhile (· != 93)
+    match t.dropWhile (· != 93) with
+    | 93 :: rest' =>
+      if bracketOk c then (portPart rest').map (fun p => (91 :: c ++ [93], p)) else none
+    | _ => none
+  | _ => none
+
 /-- `_HOST_PORT_RE.match(s).groups()`; `none` = no match.  Alternative 1 takes the maximal run of
 reg-name tokens (a shorter run leaves a reg-name token in front of the port part, which then cannot
 match); alternative 2 (IPv4) is subsumed by 1; alternative 3 is `[` … first `]`. -/
@@ -300,15 +310,7 @@ def hostPortRe (hp : Str) : Option (Str × Option Str) :=
   let rest := (toks.dropWhile regNameTok).flatMap Tok.text
   match portPart rest with
   | some p => some (r, p)
-  | none =>
-    match hp with
-    | 91 :: t =>
-      let c := t.takeWhile (· != 93)
-      match t.dropWhile (· != 93) with
-      | 93 :: rest' =>
-        if bracketOk c then (portPart rest').map (fun p => (91 :: c ++ [93], p)) else none
-      | _ => none
-    | _ => none
+  | none => hostPortBracket hp
 
 /-! ## `_normalize_host` -/
 
@@ -522,29 +524,57 @@ def refSchemeRest : Str → Option Str
       | _ => none
     else none
 
-/-- the authority component of a hier-part / relative-ref that starts with `//` -/
+/-- the RFC 3986 scheme of a URI reference, when it has one -/
+def refScheme : Str → Option Str
+  | [] => none
+  | c :: t =>
+    if isAlphaC c then
+      match t.dropWhile schemeChar with
+      | 58 :: _ => some (c :: t.takeWhile schemeChar)
+      | _ => none
+    else none
+
+/-- `host [ ":" port ]`: (host text, port text, well-formed).  An IP-literal runs to the first `]`
+and must be followed by nothing or `:port`; any other host runs to the first `:` -/
+def refHostPort (hp : Str) : Str × Option Str × Bool :=
+  match hp with
+  | 91 :: t' =>
+    let c := t'.takeWhile (· != 93)
+    match t'.dropWhile (· != 93) with
+    | 93 :: rest =>
+      match rest with
+      | [] => (91 :: c ++ [93], none, true)
+      | 58 :: p => (91 :: c ++ [93], some p, true)
+      | _ => (91 :: c ++ [93], none, false)
+    | _ => (hp, none, false)
+  | _ =>
+    match hp.dropWhile (· != 58) with
+    | 58 :: p => (hp.takeWhile (· != 58), some p, true)
+    | _ => (hp.takeWhile (· != 58), none, true)
+
+/-- the reading of an authority text: userinfo is what precedes the last `@` -/
+def refAuthOfText (a : Str) : RefAuth :=
+  let ui := (rpart 64 a).map (·.1)
+  let hp := (rpartitionAt a).2
+  ⟨ui, (refHostPort hp).1, (refHostPort hp).2.1, (refHostPort hp).2.2⟩
+
+/-- the authority component of a hier-part / relative-ref that starts with `//`: it ends at the
+first `/`, `?`, `#` or backslash -/
 def refAuthOfHier : Str → Option RefAuth
-  | 47 :: 47 :: t =>
-    let a := t.takeWhile authChar
-    let (ui, hp) := match rpart 64 a with
-      | some (u, h) => (some u, h)
-      | none => (none, a)
-    match hp with
-    | 91 :: t' =>
-      let c := t'.takeWhile (· != 93)
-      match t'.dropWhile (· != 93) with
-      | 93 :: rest =>
-        match rest with
-        | [] => some ⟨ui, 91 :: c ++ [93], none, true⟩
-        | 58 :: p => some ⟨ui, 91 :: c ++ [93], some p, true⟩
-        | _ => some ⟨ui, 91 :: c ++ [93], none, false⟩
-      | _ => some ⟨ui, hp, none, false⟩
-    | _ =>
-      let h := hp.takeWhile (· != 58)
-      match hp.dropWhile (· != 58) with
-      | 58 :: p => some ⟨ui, h, some p, true⟩
-      | _ => some ⟨ui, h, none, true⟩
+  | 47 :: 47 :: t => some (refAuthOfText (t.takeWhile authChar))
   | _ => none
+
+/-- numeric value of the reference port text (`none` for an absent or empty port) -/
+def refPortValue : Option Str → Option Nat
+  | none => none
+  | some p => if p.isEmpty then none else some (decNat p)
+
+/-- normalised reference userinfo: empty = absent; percent-encoded when the URI is normalised -/
+def refAuthValue (normalize : Bool) : Option Str → Option Str
+  | none => none
+  | some ui =>
+    if ui.isEmpty then none
+    else some (if normalize then encodeInvalidChars Gen.userinfoChars ui else ui)
 
 /-- the reading of a whole URI reference: optional scheme, then `//authority` -/
 def refAuthority (s : Str) : Option RefAuth :=
